@@ -6,6 +6,7 @@ Three kinds of case, all with the operands passed as XPath variables (no quoting
   xp1  one function call under the 1.0 parser compared with libxml2 (lxml) and the XPath 1.0 model
   law  the two engine-only laws of the statement (code-point round trip, before + t + after)
 """
+import json
 import math
 import xml.etree.ElementTree as ET
 from decimal import Decimal
@@ -512,6 +513,35 @@ def check_fo(case, out):
     out.fail(key, {'expr': expr, 'version': ver, 'operands': args, 'expected': want, 'got': got})
 
 
+def check_reuse(case, out):
+    """one parsed expression evaluated over several argument sets (a path step, a `for` body, a Selector used twice
+    all do this): every evaluation must give what a fresh parse gives for the same arguments"""
+    fn, ver, argsets, coll = case['fn'], case['ver'], case['argsets'], case.get('coll')
+    expr = expr_of(fn, len(argsets[0]), coll)
+    out.dim('reuse_function', fn)
+    fresh = [norm(run_engine(ver, expr, {'a%d' % i: decode(a) for i, a in enumerate(args)})) for args in argsets]
+
+    def f():
+        tok = PARSERS[ver]().parse(expr)
+        res = []
+        for args in argsets:
+            ctx = XPathContext(root=ET.XML('<r/>'), variables={'a%d' % i: decode(a) for i, a in enumerate(args)})
+            res.append(norm(call(tok.evaluate, ctx)))
+        return res
+    o = call(f)
+    out.nontrivial = len({json.dumps(x, sort_keys=True, default=str) for x in fresh}) > 1
+    out.obs = '%s [%s] x %d argument sets' % (expr, ver, len(argsets))
+    if o[0] != 'ok':
+        out.fail('C09/%s/reused-expression/raised' % fn, {'expr': expr, 'version': ver, 'got': list(o)})
+        return
+    for k, (a, b) in enumerate(zip(fresh, o[1])):
+        out.dim('reuse_evaluations', 'first' if k == 0 else 'later')
+        if a != b:
+            out.fail('C09/%s/reused-expression/differs-from-fresh-parse/%s' % (fn, 'first' if k == 0 else 'later-evaluation'),
+                     {'expr': expr, 'version': ver, 'argument_sets': argsets, 'evaluation': k, 'fresh': a, 'reused': b})
+            return
+
+
 def _short(o):
     t = repr(o)
     return t if len(t) < 160 else t[:157] + '...'
@@ -713,6 +743,8 @@ def check_case(kind, case):
         check_xp1(case, out)
     elif kind == 'law':
         check_law(case, out)
+    elif kind == 'reuse':
+        check_reuse(case, out)
     else:
         raise ValueError(kind)
     return out
@@ -933,6 +965,25 @@ PINNED = [
 ]
 
 
+def g_reuse_case(r, fn):
+    """three argument sets of one call shape; the later sets differ from the first in ONE argument only (a cache keyed
+    on some of the arguments shows when the others change)"""
+    base = g_fo_case(r, fn)
+    sets = [base['args']]
+    for _ in range(40):
+        if len(sets) == 3:
+            break
+        other = g_fo_case(r, fn)
+        if len(other['args']) != len(base['args']) or other.get('coll') != base.get('coll'):
+            continue
+        i = r.randrange(len(base['args'])) if base['args'] else 0
+        args = list(base['args'])
+        if args:
+            args[i] = other['args'][i]
+        sets.append(args)
+    return {'fn': fn, 'ver': base['ver'], 'coll': base.get('coll'), 'argsets': sets}
+
+
 def run(h):
     r = h.rng
     for kind, case in PINNED:
@@ -945,6 +996,9 @@ def run(h):
             h.case('xp1', g_xp1_case(r, fn))
     for _ in range(h.n(6000)):
         h.case('law', g_law_case(r))
+    for fn in FO_FUNCTIONS:
+        for _ in range(h.n(12)):
+            h.case('reuse', g_reuse_case(r, fn))
 
 
 def floors(v):
@@ -955,6 +1009,8 @@ def floors(v):
     for fn in XP1_FUNCTIONS:
         if v.got('xp1_function', fn) < 100:
             reasons.append('fewer than 100 XPath 1.0 cases for %s' % fn)
+    if v.got('reuse_evaluations', 'later') < 300:
+        reasons.append('fewer than 300 later evaluations of a reused expression')
     if v.got('oracle_comparisons', 'libxml2') < 2000:
         reasons.append('fewer than 2000 libxml2 comparisons')
     for c in ('half-even-floor', 'half-odd-floor', 'neg-half-odd-floor', 'INF', '-INF', 'NaN', 'fraction', 'integral'):
